@@ -17,7 +17,7 @@ use opcua::types::*;
 
 #[derive(Clone, Debug)]
 pub enum F { Chunk { fin: u8, size: usize, seq: u32, decodes: bool }, Partial { declared: u32, present: usize } }
-pub struct Case { mc: usize, mms: usize, frames: Vec<F> }
+pub struct Case { mc: usize, mms: usize, frames: Vec<F>, live: bool }
 pub struct P;
 
 thread_local! { static RIG: Rig = Rig::new("c10"); }
@@ -98,9 +98,11 @@ fn run(c: &Case) -> Vec<i128> {
         }
         let frames = build(&mut cl, c);
         let mut failed = false;
-        for (f, bytes) in c.frames.iter().zip(frames.iter()) {
+        let mut steps: Vec<(usize, i128, usize)> = Vec::new(); // (frame index, status, responses queued)
+        for (i, (f, bytes)) in c.frames.iter().zip(frames.iter()).enumerate() {
             let step = match guarded(|| conn.feed(bytes)) { Ok(s) => s, Err(_) => { out.push(-2); break; } };
             let status = match &step { Step::NeedMore => 1, Step::Done(Ok(()), _) => 0, Step::Done(Err(e), _) => status_class(*e) };
+            steps.push((i, status, match &step { Step::Done(_, m) => m.len(), _ => 0 }));
             let (n, b) = conn.t.verif_pending_chunks();
             out.extend([status, n as i128, b as i128, conn.buf.len() as i128]);
             if status > 1 { failed = true; }
@@ -109,6 +111,26 @@ fn run(c: &Case) -> Vec<i128> {
         out.push(-1);
         out.push(if failed { 1 } else { 0 });
         if !failed { conn.t.finish_for_rig(); }
+        // the same bytes against the real connection tasks over a loopback socket: a frame the
+        // transport refused must make the server close the socket, an accepted request must be
+        // answered, nothing else may be sent
+        if c.live && !out.contains(&-2) {
+            if let Some(mut lc) = LiveConn::connect(rig, c.mms, c.mc) {
+                let mut cl2 = Client::new();
+                let mut ok = lc.send(&Client::hello(URL, 0, 65536, 65536)) && lc.read_frame().map(|f| LiveConn::response_kind(&mut cl2, f)) == Some(1);
+                ok = ok && lc.send(&cl2.open(false, 0).1) && lc.read_frame().map(|f| LiveConn::response_kind(&mut cl2, f)) == Some(2);
+                let mut closed = false;
+                for (i, status, nresp) in &steps {
+                    if !ok { break; }
+                    ok = lc.send(&frames[*i]);
+                    for _ in 0..*nresp { ok = ok && lc.read_frame().is_some(); }
+                    if *status > 1 { ok = ok && lc.expect_close(); closed = true; break; }
+                }
+                if ok && !closed { ok = lc.close_and_expect_close(); }
+                lc.finish();
+                if !ok { out.push(-98); }
+            }
+        }
         out
     })
 }
@@ -124,36 +146,36 @@ impl Property for P {
     fn fixed(tier: &str) -> Vec<Case> {
         let mut v = vec![
             // a two-chunk and a one-chunk request, answered
-            Case { mc: 5, mms: 1000, frames: vec![ch(0, 60, 2, true), ch(1, 80, 3, true), ch(1, 120, 4, true)] },
+            Case { mc: 5, mms: 1000, live: true, frames: vec![ch(0, 60, 2, true), ch(1, 80, 3, true), ch(1, 120, 4, true)] },
             // intermediate chunks for ever: the 4th exceeds a chunk limit of 3 (before the fix: buffered without end)
-            Case { mc: 3, mms: 0, frames: (0..12).map(|i| ch(0, 40, 2 + i, false)).collect() },
+            Case { mc: 3, mms: 0, live: true, frames: (0..12).map(|i| ch(0, 40, 2 + i, false)).collect() },
             // exactly the limit is fine, final chunk as the third
-            Case { mc: 3, mms: 0, frames: vec![ch(0, 60, 2, true), ch(0, 40, 3, true), ch(1, 60, 4, true), ch(0, 30, 5, false)] },
+            Case { mc: 3, mms: 0, live: true, frames: vec![ch(0, 60, 2, true), ch(0, 40, 3, true), ch(1, 60, 4, true), ch(0, 30, 5, false)] },
             // bytes: 4 x 120 = 480 > 400
-            Case { mc: 0, mms: 400, frames: (0..8).map(|i| ch(0, 120, 2 + i, false)).collect() },
+            Case { mc: 0, mms: 400, live: true, frames: (0..8).map(|i| ch(0, 120, 2 + i, false)).collect() },
             // exactly the byte limit, then one more
-            Case { mc: 0, mms: 400, frames: vec![ch(0, 200, 2, false), ch(0, 200, 3, false), ch(0, 24, 4, false)] },
+            Case { mc: 0, mms: 400, live: true, frames: vec![ch(0, 200, 2, false), ch(0, 200, 3, false), ch(0, 24, 4, false)] },
             // no limits configured: nothing is refused
-            Case { mc: 0, mms: 0, frames: (0..30).map(|i| ch(0, 30, 2 + i, false)).collect() },
+            Case { mc: 0, mms: 0, live: true, frames: (0..30).map(|i| ch(0, 30, 2 + i, false)).collect() },
             // abort discards, then a fresh message
-            Case { mc: 2, mms: 0, frames: vec![ch(0, 40, 2, false), ch(0, 40, 3, false), ch(2, 30, 4, false), ch(0, 40, 5, true), ch(1, 90, 6, true)] },
+            Case { mc: 2, mms: 0, live: true, frames: vec![ch(0, 40, 2, false), ch(0, 40, 3, false), ch(2, 30, 4, false), ch(0, 40, 5, true), ch(1, 90, 6, true)] },
             // declared frame size above the maximum, only the header present (before the fix: waited)
-            Case { mc: 5, mms: 1000, frames: vec![F::Partial { declared: 1001, present: 12 }] },
-            Case { mc: 5, mms: 1000, frames: vec![F::Partial { declared: u32::MAX, present: 9 }] },
-            Case { mc: 5, mms: 1000, frames: vec![ch(0, 100, 2, false), F::Partial { declared: 1000, present: 500 }] },
-            Case { mc: 5, mms: 0, frames: vec![F::Partial { declared: u32::MAX, present: 40 }] },
-            Case { mc: 5, mms: 1000, frames: vec![F::Partial { declared: 5000, present: 8 }] },
+            Case { mc: 5, mms: 1000, live: true, frames: vec![F::Partial { declared: 1001, present: 12 }] },
+            Case { mc: 5, mms: 1000, live: true, frames: vec![F::Partial { declared: u32::MAX, present: 9 }] },
+            Case { mc: 5, mms: 1000, live: true, frames: vec![ch(0, 100, 2, false), F::Partial { declared: 1000, present: 500 }] },
+            Case { mc: 5, mms: 0, live: true, frames: vec![F::Partial { declared: u32::MAX, present: 40 }] },
+            Case { mc: 5, mms: 1000, live: true, frames: vec![F::Partial { declared: 5000, present: 8 }] },
             // a complete frame above the maximum
-            Case { mc: 5, mms: 300, frames: vec![ch(0, 301, 2, false)] },
+            Case { mc: 5, mms: 300, live: true, frames: vec![ch(0, 301, 2, false)] },
             // malformed chunks
-            Case { mc: 5, mms: 1000, frames: vec![ch(0, 14, 2, false)] },
-            Case { mc: 5, mms: 1000, frames: vec![ch(0, 20, 2, false), ch(1, 60, 3, false)] },
-            Case { mc: 5, mms: 1000, frames: vec![ch(0, 40, 2, false), ch(1, 20, 3, false)] },
-            Case { mc: 5, mms: 1000, frames: vec![ch(0, 60, 2, true), ch(1, 80, 4, true)] },     // gap in the sequence numbers
-            Case { mc: 5, mms: 1000, frames: vec![ch(1, 100, 1, true)] },                          // replayed sequence number
-            Case { mc: 5, mms: 1000, frames: vec![ch(1, 100, 9, true), ch(1, 100, 10, true), ch(1, 100, 10, true)] },
-            Case { mc: 5, mms: 1000, frames: vec![ch(1, 100, 2, false), ch(1, 100, 3, true)] },    // body does not decode
-            Case { mc: 1, mms: 0, frames: vec![ch(1, 100, 2, true), ch(0, 50, 3, true), ch(1, 50, 4, true)] },
+            Case { mc: 5, mms: 1000, live: true, frames: vec![ch(0, 14, 2, false)] },
+            Case { mc: 5, mms: 1000, live: true, frames: vec![ch(0, 20, 2, false), ch(1, 60, 3, false)] },
+            Case { mc: 5, mms: 1000, live: true, frames: vec![ch(0, 40, 2, false), ch(1, 20, 3, false)] },
+            Case { mc: 5, mms: 1000, live: true, frames: vec![ch(0, 60, 2, true), ch(1, 80, 4, true)] },     // gap in the sequence numbers
+            Case { mc: 5, mms: 1000, live: true, frames: vec![ch(1, 100, 1, true)] },                          // replayed sequence number
+            Case { mc: 5, mms: 1000, live: true, frames: vec![ch(1, 100, 9, true), ch(1, 100, 10, true), ch(1, 100, 10, true)] },
+            Case { mc: 5, mms: 1000, live: true, frames: vec![ch(1, 100, 2, false), ch(1, 100, 3, true)] },    // body does not decode
+            Case { mc: 1, mms: 0, live: true, frames: vec![ch(1, 100, 2, true), ch(0, 50, 3, true), ch(1, 50, 4, true)] },
         ];
         if tier == "thorough" {
             // every flag sequence of length <= 6 over {C, F, A}: 40-byte chunks under a chunk limit of 2,
@@ -162,7 +184,7 @@ impl Property for P {
                 for len in 1..=6u32 { for code in 0..3u32.pow(len) {
                     let mut k = code; let mut fr = Vec::new();
                     for i in 0..len { fr.push(ch((k % 3) as u8, size, 2 + i, false)); k /= 3; }
-                    v.push(Case { mc, mms, frames: fr });
+                    v.push(Case { mc, mms, frames: fr, live: false });
                 } }
             }
         }
@@ -193,7 +215,7 @@ impl Property for P {
             let _ = group_len;
             seq += 1;
         }
-        Case { mc, mms, frames }
+        Case { mc, mms, frames, live: r.chance(1, 10) }
     }
     fn exec(c: &Case) -> Out {
         let out = run(c);
